@@ -410,3 +410,15 @@ _c15_base = contracts
 
 def contracts():
     return _c15_base() + [object_loop_contract(d, s) for d in ("ser", "deser") for s in (False, True)]
+
+
+# the values serialized come from get_value_generator
+_c15_base2 = contracts
+
+
+def contracts():
+    from contracts import c13 as _c13
+    extra = [_c13.get_value_generator_dynamic_contract(), _c13.get_value_generator_contract("plain")]
+    for c in extra:
+        c.prop = PROP
+    return _c15_base2() + extra
